@@ -132,10 +132,10 @@ TARGETS = [
     # ---- batch 3: loops ----------------------------------------------------------------------------------------------
     dict(file="bitstring/bits.py", cls="Bits", func="_imul", lean="imul_loop", mode="trace", params=[("n", "int")], fuel={1: "n"}),
     # BitArray.invert(pos) once pos is an iterable of ints (the part after the None / single-int dispatch)
-    dict(file="bitstring/bitarray_.py", cls="BitArray", func="invert", lean="invert_positions", mode="trace", region="length = len(self)",
+    dict(file="bitstring/bitarray_.py", cls="BitArray", func="invert", lean="invert_positions", mode="trace", region=r"\w+ = len\(self\)$",
          params=[("pos", "intlist")], err_trace=True),
     # BitArray.byteswap once the format is a list of byte sizes and the range is validated
-    dict(file="bitstring/bitarray_.py", cls="BitArray", func="byteswap", lean="byteswap_core", mode="trace", region="repeats = 0",
+    dict(file="bitstring/bitarray_.py", cls="BitArray", func="byteswap", lean="byteswap_core", mode="trace", region=r"\w+ = 0$",
          params=[("start_v", "int"), ("end_v", "int"), ("bytesizes", "intlist"), ("repeat", "bool")]),
     # ---- batch 4: exponential-Golomb readers (loops over the bits, try/except IndexError -> ReadError) ------------------
     dict(file="bitstring/bits.py", cls="Bits", func="_readue", lean="readue", params=[("pos", "int")], ret=("int", "int"),
@@ -148,14 +148,14 @@ TARGETS = [
     dict(file="bitstring/bits.py", cls="Bits", func="_readsie", lean="readsie", params=[("pos", "int")], ret=("int", "int"),
          self_bits=True, attrs={"bitstring.options.lsb0": ("opt_lsb0", "bool")}),
     # Array.fromfile after the file has been read into new_data; Array.reverse (the slice swaps keep len(self.data))
-    dict(file="bitstring/array_.py", cls="Array", func="fromfile", lean="array_fromfile", mode="trace", region="max_items = ",
+    dict(file="bitstring/array_.py", cls="Array", func="fromfile", lean="array_fromfile", mode="trace", region=r"\w+ = len\(new_data\) // ",
          params=[("n", "optint")], attrs={"self._dtype.bitlength": ("itemsize", "int")}, lens={"len(new_data)": "len_new_data"},
          err_trace=True, no_self_len=True),
     dict(file="bitstring/array_.py", cls="Array", func="reverse", lean="array_reverse", mode="trace", params=[],
          attrs={"self._dtype.bitlength": ("itemsize", "int")}, lens={"len(self.data)": "len_data"}, stable_lens=["len(self.data)"],
          no_self_len=True),
     # Bits.tofile: the chunk loop (the chunk size itself - constant or hook override - is extracted by extract_C17)
-    dict(file="bitstring/bits.py", cls="Bits", func="tofile", lean="tofile_loop", mode="trace", region="for start in range",
+    dict(file="bitstring/bits.py", cls="Bits", func="tofile", lean="tofile_loop", mode="trace", region=r"for \w+ in range\(",
          params=[("chunk_size", "int")]),
     # Array: len(self) is the number of items, self._dtype.bitlength the item width in bits
     dict(file="bitstring/array_.py", cls="Array", func="insert", lean="array_insert", mode="trace",
@@ -1222,7 +1222,10 @@ def translate_one(repo, spec):
         if spec.get("region"):
             # translate only the statements from the first one whose source text starts with the marker
             marker = spec["region"]
-            idx = [i for i, st in enumerate(stmts) if ast.unparse(st).startswith(marker)]
+            import re as _re
+            # the marker is a regular expression matched at the start of a statement's source text (so that renaming a
+            # local does not move the region)
+            idx = [i for i, st in enumerate(stmts) if _re.match(marker, ast.unparse(st))]
             if len(idx) != 1:
                 raise Untranslatable(f"region marker {marker!r} found {len(idx)} times")
             stmts = stmts[idx[0]:]
